@@ -12,7 +12,9 @@ class Secrete(Process):
                 'pool': {'total': {'_default': 0.0, '_emit': True}}}
 
     def next_update(self, timestep, states):
-        return {'own': {'mass': timestep}, 'pool': {'total': self.parameters['rate'] * timestep}}
+        # the process reads its own schema (assigned by the store at construction; in a worker: forwarded to it)
+        known = 1.0 if self.schema else 0.0
+        return {'own': {'mass': timestep * known}, 'pool': {'total': self.parameters['rate'] * timestep}}
 
 
 class Reaper(Process):
